@@ -298,6 +298,13 @@ func resetWipesBoth(c *Check, rule string) {
 				if (db == rb && instrIndex(d.Ins) < instrIndex(cs.Ins)) || (db != rb && c.P.Dominates(db, rb)) {
 					ok = true
 				}
+				// the deletion may sit in a loop over a literal list of addresses that includes the packet contract's:
+				// the loop (its header dominates the reset) then runs before the reset
+				for _, h := range fn.Blocks {
+					if h != db && c.P.Dominates(h, db) && c.P.Dominates(h, rb) && fa.reachFrom(db)[h.Index] && !fa.reachFrom(rb)[h.Index] {
+						ok = true
+					}
+				}
 			}
 			_ = fa
 			c.Req(ok, rule, funcName(fn)+"/ResetStates after DeleteAccount(packet contract)", cs.Ins.Pos(), "the packet contract account is deleted first",
